@@ -174,11 +174,19 @@ def report():
             continue
         r = s2.get(m["id"], {"verdict": "not-run", "props": []})
         rows.append({"id": m["id"], "file": m["file"], "line": m["line"], "func": m["func"], "kind": m["kind"], "old": m["old"][:80],
-                     "new": m["new"][:80], "verdict": r["verdict"][:120], "checks_run": [p for p, _ in r["props"]],
-                     "triage": tri.get(m["id"], "")})
+                     "new": m["new"][:80], "verdict": r["verdict"][:120], "first_verdict": r.get("first_verdict", r["verdict"])[:120],
+                     "checks_run": [p for p, _ in r["props"]], "triage": tri.get(m["id"], "")})
     from collections import Counter
     summ = {"mutants": len(ms), "killed_by_pinned_suite": sum(1 for v in s1.values() if v != "survived"),
-            "survived_suite": len(rows), "verdicts": Counter(r["verdict"].split()[0] for r in rows)}
+            "survived_suite": len(rows), "verdicts": Counter(r["verdict"].split()[0] for r in rows),
+            "first_pass_verdicts": Counter(r["first_verdict"].split()[0] for r in rows),
+            "killed_by": Counter(r["verdict"].split()[1] for r in rows if r["verdict"].startswith("killed"))}
+    try:
+        import subprocess
+        unc = subprocess.run([PY, os.path.join(V, "tools", "uncovered.py")], stdout=subprocess.PIPE).stdout.decode().strip().split("\n")[-1]
+        summ["coverage"] = unc.replace("total unreached", "statements no check reaches:")
+    except Exception:
+        pass
     json.dump({"summary": summ, "suite_survivors": rows}, open(V + "/tools/mutation_report.json", "w"), indent=1)
     print(summ)
 
